@@ -35,9 +35,9 @@ impl<W: Write> DefaultProtocolWriter<W> {
     fn write_type_and_value(&mut self, type_id: u8, value: u64, mut size: u8) {
         if self.ok {
             size = size.saturating_sub(4);
-            let mut r = self
-                .writer
-                .write_u8(type_id | (((value >> size) as u8) & 0x0F));
+            // The 68-bit class has no value bits left for the type byte (u64 has only 64).
+            let high = if size < 64 { ((value >> size) as u8) & 0x0F } else { 0 };
+            let mut r = self.writer.write_u8(type_id | high);
             while size > 0 && r.is_ok() {
                 size = size.saturating_sub(8);
                 r = self.writer.write_u8((value >> size) as u8);
@@ -177,7 +177,7 @@ impl<W: Write> ProtocolWriter<W> for DefaultProtocolWriter<W> {
         } else if value < (1u64 << 60) {
             self.write_type_and_value(FSM_PROTOCOL_TYPE_INT_60BIT, value, 60);
         } else {
-            self.write_type_and_value(FSM_PROTOCOL_TYPE_INT_68BIT, value, 64);
+            self.write_type_and_value(FSM_PROTOCOL_TYPE_INT_68BIT, value, 68);
         }
     }
 
